@@ -36,7 +36,7 @@ CHECKS = {
    text="Histories built to share content-addressed nodes between old and new versions (insert-then-delete, revert, delete-all, earlier vacuums, merges) are vacuumed with cutoffs before/at/between/after the version stamps and delete times; rows through the same connection, a fresh connection and every earlier version created at or after the cutoff must be unchanged, every version still listed must reach only existing decodable nodes, later writes must work; half of the cases let write times lag behind the version clock so that markers are purged while all versions are retained, then purge a transient key and run a final vacuum with a cutoff after everything, re-applying all oracles; one case in three repeats the vacuum with a crash after every mutating request and checks the recovery opens.",
    note="Creation time = the stamp in the version object (handle's last open/refresh). The vacuuming handle has merged everything (vacuum next to unmerged forks older than the cutoff is documented as unsafe). After a crash, version objects the interrupted vacuum was about to remove are not counted as retained."),
  "C10": dict(level="exploration", design="§4 C10",
-   technique="runtime monitoring: reference retention rule over the recorded version DAG and decoded delete stamps vs the bucket listing after vacuum; idempotence by listing equality; late-merge resurrection probe; single-failure injection at every mutating request followed by a repeated vacuum and an orphan-node scan; final everything-superseded vacuum",
+   technique="runtime monitoring: reference retention rule over the recorded version DAG and decoded delete stamps vs the bucket listing after vacuum; idempotence by listing equality; late-merge resurrection probe; single-failure injection at every mutating request followed by a repeated vacuum and an orphan-node scan; final everything-superseded vacuum; planted emptied-version-beside-a-fork scenario under both merge orders (hook H2)",
    text="After each successful vacuum the decoded current tree must have lost exactly the markers of rows deleted strictly before the cutoff and kept the others with unchanged delete times; the removed version and node objects must equal the reference rule (a version goes iff all its successors were created before the cutoff, a node iff only reclaimed versions reach it); a second identical vacuum must leave names and hashes of all objects unchanged; a late merge of an older live copy must not resurrect a row whose marker was kept.",
    note="The rule is evaluated on the DAG including the version the vacuum itself commits; garbage nodes no version ever referenced are not demanded to go; boundaries are probed with cutoffs equal to recorded stamps. A failed vacuum that had already deleted nodes cannot be completed by repeating it: known finding D35."),
  "C05": dict(level="exploration", design="§4 C05",
